@@ -68,6 +68,10 @@ type Case struct {
 	MWTracker  string `json:"mw_tracker,omitempty"`  // "" stub returning RelayState | default (cookie tracker)
 	MWArtifact bool   `json:"mw_artifact,omitempty"` // Options.UseArtifactResponse
 	MWPath     string `json:"mw_path,omitempty"`     // protected URL the browser asked for
+
+	// IDPLayout: "" = one IDPSSODescriptor; "later-descriptor" = a first descriptor that offers only
+	// other bindings (at other locations) in front of the one that has the endpoints in use.
+	IDPLayout string `json:"idp_layout,omitempty"`
 }
 
 // Prior is one earlier creation on the same SP.
@@ -211,6 +215,7 @@ func gen(t *rapid.T) Case {
 		c.AuthnContext = rapid.SampledFrom([]string{"urn:oasis:names:tc:SAML:2.0:ac:classes:PasswordProtectedTransport", "urn:x:a&b<c>", "x"}).Draw(t, "ctx")
 	}
 	c.ForceAuthn = rapid.SampledFrom([]string{"", "", "true", "false"}).Draw(t, "force")
+	c.IDPLayout = rapid.SampledFrom([]string{"", "", "later-descriptor"}).Draw(t, "idplayout")
 	hasMW := c.Msg == "mw"
 	for _, pr := range c.Prior {
 		hasMW = hasMW || pr.Msg == "mw"
@@ -248,21 +253,32 @@ func buildSP(c Case) *saml.ServiceProvider {
 	return sp
 }
 
+const artifactURL = "https://idp.example.org/artifact"
+
 func buildSP0(c Case) *saml.ServiceProvider {
 	k := fix.Get(c.Key)
+	real := saml.IDPSSODescriptor{
+		SSODescriptor: saml.SSODescriptor{SingleLogoutServices: []saml.Endpoint{
+			{Binding: saml.HTTPRedirectBinding, Location: c.SLO}, {Binding: saml.HTTPPostBinding, Location: c.SLO}}},
+		SingleSignOnServices: []saml.Endpoint{
+			{Binding: saml.HTTPRedirectBinding, Location: c.SSO}, {Binding: saml.HTTPPostBinding, Location: c.SSO}},
+		ArtifactResolutionServices: []saml.Endpoint{{Binding: saml.SOAPBinding, Location: artifactURL}},
+	}
+	descs := []saml.IDPSSODescriptor{real}
+	if c.IDPLayout == "later-descriptor" {
+		wrong := func(b string) []saml.Endpoint {
+			return []saml.Endpoint{{Binding: b, Location: "https://decoy.example/wrong"}}
+		}
+		descs = []saml.IDPSSODescriptor{{
+			SSODescriptor:              saml.SSODescriptor{SingleLogoutServices: wrong(saml.SOAPBinding)},
+			SingleSignOnServices:       wrong(saml.HTTPArtifactBinding),
+			ArtifactResolutionServices: wrong(saml.HTTPArtifactBinding),
+		}, real}
+	}
 	return &saml.ServiceProvider{
 		EntityID: c.EntityID, Key: k.Key, Certificate: k.Cert, SignatureMethod: c.Method,
 		MetadataURL: mustURL("https://sp.example.com/saml/metadata"), AcsURL: mustURL("https://sp.example.com/saml/acs"), SloURL: mustURL("https://sp.example.com/saml/slo"),
-		IDPMetadata: &saml.EntityDescriptor{
-			EntityID: "https://idp.example.org/metadata",
-			IDPSSODescriptors: []saml.IDPSSODescriptor{{
-				SSODescriptor: saml.SSODescriptor{SingleLogoutServices: []saml.Endpoint{
-					{Binding: saml.HTTPRedirectBinding, Location: c.SLO}, {Binding: saml.HTTPPostBinding, Location: c.SLO}}},
-				SingleSignOnServices: []saml.Endpoint{
-					{Binding: saml.HTTPRedirectBinding, Location: c.SSO}, {Binding: saml.HTTPPostBinding, Location: c.SSO}},
-				ArtifactResolutionServices: []saml.Endpoint{{Binding: saml.SOAPBinding, Location: "https://idp.example.org/artifact"}},
-			}},
-		},
+		IDPMetadata: &saml.EntityDescriptor{EntityID: "https://idp.example.org/metadata", IDPSSODescriptors: descs},
 	}
 }
 
@@ -271,9 +287,10 @@ type outcome struct {
 	page []byte
 	art  *saml.ArtifactResolve
 	// soap: the bodies the SP actually sent to the artifact resolution service
-	soap [][]byte
-	err  error
-	pan  any
+	soap     [][]byte
+	soapURLs []string
+	err      error
+	pan      any
 	// snap: copy of the wire form (URL text / HTML) taken when the call returned
 	snap string
 	// mw: what the middleware answered
@@ -316,13 +333,24 @@ func (p *parties) middleware(c Case) (*samlsp.Middleware, error) {
 	}
 	k := fix.Get(c.Key)
 	md := buildSP0(c).IDPMetadata
-	var sso []saml.Endpoint
-	for _, e := range md.IDPSSODescriptors[0].SingleSignOnServices {
-		if (e.Binding == saml.HTTPRedirectBinding && offered(c, "redirect")) || (e.Binding == saml.HTTPPostBinding && offered(c, "post")) {
-			sso = append(sso, e)
+	for i := range md.IDPSSODescriptors {
+		var sso []saml.Endpoint
+		for _, e := range md.IDPSSODescriptors[i].SingleSignOnServices {
+			switch e.Binding {
+			case saml.HTTPRedirectBinding:
+				if offered(c, "redirect") {
+					sso = append(sso, e)
+				}
+			case saml.HTTPPostBinding:
+				if offered(c, "post") {
+					sso = append(sso, e)
+				}
+			default:
+				sso = append(sso, e)
+			}
 		}
+		md.IDPSSODescriptors[i].SingleSignOnServices = sso
 	}
-	md.IDPSSODescriptors[0].SingleSignOnServices = sso
 	opts := samlsp.Options{EntityID: c.EntityID, URL: mustURL("https://sp.example.com/"), Key: k.Key, Certificate: k.Cert, IDPMetadata: md,
 		SignRequest: true, ForceAuthn: c.ForceAuthn == "true", UseArtifactResponse: c.MWArtifact}
 	if c.AuthnContext != "" {
@@ -347,11 +375,15 @@ func (p *parties) middleware(c Case) (*samlsp.Middleware, error) {
 }
 
 // capture records what the SP sends to the IdP's artifact resolution endpoint.
-type capture struct{ bodies [][]byte }
+type capture struct {
+	bodies [][]byte
+	urls   []string
+}
 
 func (c *capture) RoundTrip(r *http.Request) (*http.Response, error) {
 	b, _ := io.ReadAll(r.Body)
 	c.bodies = append(c.bodies, b)
+	c.urls = append(c.urls, r.URL.String())
 	return nil, errors.New("harness: request captured, no IdP behind this transport")
 }
 
@@ -423,7 +455,7 @@ func run(p *parties, c Case) (o outcome) {
 		r := httptest.NewRequest("POST", "https://sp.example.com/saml/acs", nil)
 		r.Form = url.Values{"SAMLart": {c.Artifact}}
 		_, _ = sp.ParseResponse(r, []string{"id-0"})
-		o.soap = cp.bodies
+		o.soap, o.soapURLs = cp.bodies, cp.urls
 	default:
 		o.err = fmt.Errorf("harness: unknown message kind %q", c.Msg)
 	}
@@ -891,6 +923,9 @@ func judge(p *parties, c Case, o outcome) (msg string, excluded string) {
 		if len(o.soap) != 1 {
 			return fmt.Sprintf("an artifact at the ACS made the SP send %d requests to the artifact resolution service, want 1", len(o.soap)), ""
 		}
+		if o.soapURLs[0] != artifactURL {
+			return fmt.Sprintf("the ArtifactResolve went to %q, the IdP metadata configures %q for the SOAP binding", o.soapURLs[0], artifactURL), ""
+		}
 		if msg = verifyEnveloped(c, cert, o.soap[0], "ArtifactResolve@soap"); msg != "" {
 			msg = "SOAP request sent to the artifact resolution service: " + msg
 		}
@@ -1004,6 +1039,8 @@ func enumCRText(_ string, emit func(Case)) {
 		}
 		for _, kind := range msgs {
 			emit(Case{Key: k, Method: m, Msg: kind, RelayState: "rs", NameID: "user\rname", RequestID: "id-123", Artifact: "AAQA\rAMFb", SSO: "https://idp.example.org/saml", SLO: "https://idp.example.org/saml"})
+			// the endpoints in use sit in a later IDPSSODescriptor
+			emit(Case{Key: k, Method: m, Msg: kind, RelayState: "rs", NameID: "user", RequestID: "id-123", Artifact: "AAQAAMFb", SSO: "https://idp.example.org/saml", SLO: "https://idp.example.org/saml", IDPLayout: "later-descriptor", IDPOffers: "post"})
 		}
 	}
 }
@@ -1023,6 +1060,7 @@ var prop = &pbt.Prop[Case]{
 		"literal TAB / LF / CR inside attribute-position contents (request ID -> InResponseTo; entity ID -> SPNameQualifier) are counted, not judged: XML attribute-value normalisation, property silent",
 		"the ECDSA enveloped SignatureValue is judged by goxmldsig's own validation (the observation point the property names), whatever its DER / r||s layout",
 		"parameters following Signature in a redirect query are not judged",
+		"the IdP metadata has one IDPSSODescriptor or a first descriptor offering only other bindings in front of it; destinations are not judged here (C12), except that the ArtifactResolve must go to the configured SOAP endpoint",
 		"middleware: which binding it picks is not judged, only that the AuthnRequest it emits verifies; a configured Binding the IdP does not offer may be refused; the default cookie tracker is used only with keys its JWT codec supports (RSA, P-256), its relay state is learnt from the saml_<index> cookie",
 	},
 }
